@@ -7,6 +7,7 @@ import sympy as sp
 
 from .. import terms as TM
 from ..absint import Interp, Unsupported
+from .common import public_functional
 from ..core import AnalysisError, Report, Repo
 from ..oracle import oracle_function, std_globals
 from ..schemas import O, P, dim, hyper
@@ -51,7 +52,7 @@ def ref_forward(self, input):
 
 def check_layer_forward(report: Report, repo: Repo, rule: str) -> None:
     """TransformerLayer.forward == the pre-norm residual recipe (term equality)."""
-    it4 = Interp(repo, opaque=lambda f: isinstance(f, FuncV) and f.module.rel == "unit_scaling/functional.py")
+    it4 = Interp(repo, opaque=public_functional)
     layer = it4.get_global(MD, "TransformerLayer")
     fwd = it4.class_attr(layer, "forward")
 
@@ -125,7 +126,7 @@ def check(report: Report, repo: Repo) -> None:
     from ..nnmodel import container_super_hook
 
     def opaque(f):
-        return isinstance(f, ClassV) and f.qualname in ("TransformerLayer",) or (isinstance(f, FuncV) and f.module.rel == "unit_scaling/functional.py")
+        return isinstance(f, ClassV) and f.qualname in ("TransformerLayer",) or public_functional(f)
 
     depths = (1, 2, 3, 5, 11, 12) if report.tier == "quick" else (1, 2, 3, 4, 5, 7, 9, 10, 11, 12, 13, 21, 32)
     for n in depths:
